@@ -1,5 +1,6 @@
 import Nstd.Rc.Lemmas
 import Nstd.Rc.Total
+import Nstd.Rc.Stale
 /-
   Property C09: shared payloads are released exactly once, after their last handle.
 
@@ -271,6 +272,35 @@ theorem apiStep_total_partial {s : St} {tid : Nat} {op : ApiOp} (hc : Conc s tid
   (their step lists walk through embedded handles and depend on the object graph; they additionally need
   fewer than `maxBlocks` allocations and non-null `d` for `d->next`).  In the correspondence runs a rejected
   call would show up as `bad-op` against the implementation's observation; none occurred.
+-/
+
+/-! ### no use of a handle after its reference was dropped
+    (`dec` forgets the pointer in the model; `Stale.lean` instruments the step sequences with the pointer that
+    the C++ object still holds until it is overwritten, and counts every read of such a slot as `misuse`) -/
+
+/-- every history of String / Variant / Xml::Variant calls: no step ever reads (copies, dereferences, releases
+    again) a handle between the decrement through it and the store that overwrites it -/
+theorem no_use_after_drop {n : Nat} {ops : List ApiOp} {s : St} {g : Gh}
+    (hops : ∀ op, op ∈ ops → flatOp op = true ∧ idxOk op) (h : apiRunG (init n) gh0 0 ops = some (s, g)) :
+    g.misuse = 0 :=
+  (apiRunG_clean ops (by decide) hops gh0_clean h).1
+
+/-- the instrumentation does see the defect class: the decrement-first `operator=` on a self-assignment
+    (`release; acquire from the same handle`) is a misuse, the order of the real code is not -/
+example : ∃ s g, runTG (init nSlots) gh0 0 [.alloc 0 30 [1] 0, .dec 0, .free, .inc 17 0, .move 0 17] = some (s, g) ∧
+    g.misuse = 1 := by
+  refine ⟨_, _, rfl, ?_⟩
+  decide
+
+example : ∃ s g, runTG (init nSlots) gh0 0 [.alloc 0 30 [1] 0, .inc 17 0, .dec 0, .free, .move 0 17] = some (s, g) ∧
+    g.misuse = 0 ∧ s.freed 0 = 0 := by
+  refine ⟨_, _, rfl, ?_⟩
+  decide
+
+/-
+  OPEN: `no_use_after_drop` for the RefCount::Ptr calls that walk through embedded handles (their step lists depend
+  on the object graph); the order "read the assigned handle, then release" of `Ptr::operator=` (defect D37, seeded
+  change C09-1) is validated for them by the correspondence run only.
 -/
 
 /-! ### non-vacuity: concrete histories / schedules that exercise sharing, cloning, release -/
